@@ -467,8 +467,12 @@ func (e *EdgeQuery) findEdgesInternal(target distanceTarget, opts *queryOptions)
 	// distanceLimit < maxError, this reduces the distance limit to 0,
 	// i.e. all remaining candidate cells and edges can safely be discarded.
 	// (This is how IsDistanceLess() and friends are implemented.)
-	targetUsesMaxError := opts.maxError != target.distance().zero().chordAngle() &&
-		e.target.setMaxError(opts.maxError)
+	//
+	// The target is told the max error of every call, including zero: a target
+	// that keeps state of its own (a ShapeIndex target has a private query)
+	// must not carry the max error of an earlier call into this one.
+	targetUsesMaxError := e.target.setMaxError(opts.maxError) &&
+		opts.maxError != target.distance().zero().chordAngle()
 
 	// Note that we can't compare maxError and distanceLimit directly
 	// because one is a Delta and one is a Distance. Instead we subtract them.
